@@ -85,7 +85,8 @@ class C20(Check):
             "the operations it declares), for reverse also ==, std::distance, std::next, copying out; ELEMENT TYPES constructible from their own container (std::any, a recursive "
             "Value(vector<Value>), a type with an initializer_list-of-itself constructor) over lvalue / temporary vectors and lists and braced "
             "lists, lengths 0..4, and move-only elements (unique_ptr: moved out and replaced through the adaptor); enumerate(reverse(c)); "
-            "const adaptor objects (the forms whose begin()/end() are const); const iterator / const proxy accessors; a case is non-trivial when the range has at least one element; distinct = distinct case line")
+            "const adaptor objects (the forms whose begin()/end() are const); const iterator / const proxy accessors; the BINDING FORM of the enumerate loop variable (auto, auto&&, const auto&, const auto, a helper "
+            "taking the pair by const&) over lvalue ranges of std::string elements with address identity and write-through (append); a case is non-trivial when the range has at least one element; distinct = distinct case line")
     modelled_note = ("modelled, not verified: overload resolution, lifetime of temporaries, the underlying containers' iterators and "
                      "std::reverse_iterator (a position / a base position in the model)")
 
@@ -161,6 +162,13 @@ class C20(Check):
                         for n in range(1 if kind == "il" else 0, 5):
                             for l in [list(range(10, 10 + n))] + [rng.sample(range(0, 1000), n) for _ in range(1 if tier == "quick" else 5)]:
                                 yield "et %s %s %s %s %s" % (ad, ty, kind, mode, wl(l)), "elemtype"
+        # BINDING FORM of the enumerate loop variable (auto, auto&&, const auto&, const auto, helper taking const&) over lvalue
+        # ranges of std::string elements: address identity of p.value() and write-through (append) for every form
+        for form in "afckh":
+            for kind in ("vec", "list", "deq", "map", "fv", "arr", "carr"):
+                for n in range(1 if kind == "carr" else 0, 5):
+                    for l in [list(range(10, 10 + n))] + [rng.sample(range(0, 1000), n) for _ in range(1 if tier == "quick" else 4)]:
+                        yield "bf %s %s %s" % (form, kind, wl(l)), "binding"
         # longer ranges for the kinds whose length is not a template parameter
         for _ in range(60 if tier == "quick" else 1500):
             ad = rng.choice(("en", "rv"))
